@@ -197,6 +197,8 @@ def main_for(chk: Check, pid: str, models: bool = True):
                    | {"snaps[0][:3]": r["snaps"][0][:3], "evo[-1][:3]": r["evo"][-1][:3], "best": r["best"],
                       "ptab[:3]": r["ptab"][:3], "calls_per_phase": [len(c) for c in r["calls"]], "task": r["spec"]["desc"]["vars"]})
     canaries(chk, pid, ok)
+    if pid == "C17":
+        elite_sweep(chk)
     if pid == "C06":
         # second half of the property: an invalid call is rejected up front (Instance histories with OptimizeBadCall,
         # Optimize without configuration, SetConfig with a bad dictionary), replayed on all 84 classes
@@ -311,3 +313,72 @@ def replay(chk: Check, rec: dict, pid: str | None = None):
     chk.distinct.add((r["opt"], r["encoding"]))
     chk.distinct.add(("replay", pid))
     chk.sample({"opt": r["opt"], "crash": r["crash"], "steps": r["steps"], "verdicts": sorted(cl for _, cl in bad)})
+
+
+def _elite_run(spec):
+    """one long untraced run; returns the best cost of every generation (user's sign)"""
+    import contextlib, io, warnings
+    import numpy as np
+    import pyvolutionary
+    from . import tasks
+    opt, desc = spec["opt"], spec["desc"]
+    try:
+        cfg = getattr(pyvolutionary, gen.FIX[opt]["config_class"])(**spec["cfg"])
+    except Exception:
+        return None
+    if gen.precondition(opt, spec["cfg"], desc):
+        return None
+    tasks.REC.reset()
+    try:
+        with contextlib.redirect_stdout(io.StringIO()), warnings.catch_warnings(), np.errstate(all="ignore"):
+            warnings.simplefilter("ignore")
+            res = getattr(pyvolutionary, opt)(cfg).optimize(tasks.build_task(desc, cls=tasks.PlainTask))
+    except Exception:
+        return None            # crashes are C06's business
+    mx = desc["minmax"] == "max"
+    bests = [(max if mx else min)(a.cost for a in g.agents) for g in res.evolution]
+    return {"opt": opt, "dir": desc["minmax"], "bests": bests, "best": res.best_solution.cost, "spec": spec}
+
+
+def elite_sweep(chk: Check):
+    """C17 needs the best agent itself to be hit by a faulty replacement: many long runs of every claimed optimizer"""
+    import concurrent.futures as cf
+    rng = random.Random(chk.seed + 4242)
+    thorough = chk.tier == "thorough"
+    specs = []
+    for opt in gen.OPTIMIZERS:
+        if opt in gen.NON_ELITIST:
+            continue
+        for _ in range(120 if thorough else 12):
+            specs.append({"opt": opt, "desc": gen.task_desc(rng, rng.choice(["contmulti", "cont"]), dim=rng.choice([1, 2, 3, 5])),
+                          "cfg": gen.config_dict(rng, opt, scale=1, max_cycles=(rng.choice([40, 60]) if thorough else 40), stop="cycles", jit=rng.random() < 0.3)})
+    with cf.ProcessPoolExecutor(14) as ex:
+        outs = [r for r in ex.map(_elite_run, specs, chunksize=6) if r]
+    recs = []
+    for k, r in enumerate(outs):
+        rk = corpus.Ranker()
+        for v in r["bests"] + [r["best"]]:
+            rk.add(v)
+        rk.freeze()
+        recs.append({"id": k + 1, "dir": r["dir"], "bests": [rk.rk(v) for v in r["bests"]], "best": rk.rk(r["best"])})
+    bad, st, consumed = corpus.judge("TraceElite.tla", "TraceElite.cfg", recs, "elite", jobs=8, per_batch=400)
+    chk.states += st
+    chk.transitions += st
+    chk.traces += consumed
+    chk.evaluations += consumed
+    for rid, clause in bad:
+        r = outs[rid - 1]
+        chk.violation(clause, {"optimizer": r["opt"]}, {"run": r["spec"], "bests": r["bests"][:80]})
+    chk.extra["elite_sweep_runs"] = consumed
+    chk.extra["elite_sweep_generations"] = sum(len(r["bests"]) for r in outs)
+    for r in outs:
+        chk.distinct.add((r["opt"], "long", r["dir"], len(r["bests"])))
+    # canary
+    ok = [r for k, r in enumerate(recs) if (k + 1) not in {i for i, _ in bad} and len(r["bests"]) > 5]
+    if ok:
+        c = json.loads(json.dumps(ok[0]))
+        c["id"] = 1
+        worse = max(c["bests"]) + 1 if c["dir"] == "min" else min(c["bests"]) - 1
+        c["bests"][3] = worse
+        cbad, _, _ = corpus.judge("TraceElite.tla", "TraceElite.cfg", [c], "elite-canary", jobs=1)
+        chk.canary("C17.mono#long", (1, "C17.mono") in set(cbad), "one generation's best cost of a real long run made worse")
